@@ -645,7 +645,8 @@ func (oa *orderAnalysis) effects(l *ordLoop) (effs []ordEffect, earlyExit bool) 
 					// classify what the exit hands out
 					if ret, ok := lastInstr(s).(*ssa.Return); ok {
 						uniform := true
-						for _, rv := range ret.Results {
+						for ri := range ret.Results {
+							rv := retVal(ret, ri)
 							if l.dependsOnIteration(rv) {
 								uniform = false
 							}
